@@ -378,66 +378,107 @@ def oracle_inject(case: dict, r: Any) -> Optional[Tuple[str, str]]:
     return None
 
 
+def failing_field_renderers(case: dict) -> int:
+    """how many stub field bodies have a raising to_stan (read off the stub specification)"""
+    n = 0
+    for b in list(case['parsers'].values()) + [{'pdoc': p} for p in case.get('preset', {}).values()]:
+        for f in b['pdoc'].get('fields', []):
+            if f['tag'] in ('note',) + TYPE_FIELDS and f['body']['to_stan'] != 'ok':
+                n += 1
+    return n
+
+
+def fieldlost_inject(case: dict, r: Any) -> Optional[str]:
+    """A rendered field shows "Broken description": its text is not shown anywhere."""
+    if 'worker' in r:
+        return None
+    for op, o in zip(case['ops'], r['ops']):
+        if op[0] == 'format_docstring' and not o['raised'] and ['broken'] in o.get('fields', []):
+            return ('format_docstring(%s) renders %d field(s) as "Broken description" (stub field renderers that raise: %d)'
+                    % (op[1], o['fields'].count(['broken']), failing_field_renderers(case)))
+    return None
+
+
 def effective_fmt(case: dict) -> str:
     return 'plaintext' if case['sysfmt'] == 'plaintext' else (case.get('modfmt') or case['sysfmt'])
 
 
 # ------------------------------------------------------------------------------------------------ the property, real parsers
-def oracle_real(case: dict, r: Any) -> Optional[Tuple[str, str]]:
+def oracle_real_all(case: dict, r: Any) -> List[Tuple[str, str]]:
+    """C08 on one observation of the real parsers: EVERY failed clause (so that an instance of a known finding can
+    never hide another violation on the same input)."""
+    out: List[Tuple[str, str]] = []
     if r.get('hang'):
-        return ('hang', 'no result within %ss (wall clock) for %s/%s' % (r.get('limit_s'), case['fmt'], case['kind']))
+        return [('hang', 'no result within %ss (wall clock) for %s/%s' % (r.get('limit_s'), case['fmt'], case['kind']))]
     if r.get('crashed'):
-        return ('crash', 'interpreter died (rc=%s)' % r.get('rc'))
+        return [('crash', 'interpreter died (rc=%s)' % r.get('rc'))]
     if r.get('worker_error'):
-        return ('worker', r['worker_error'])
+        return [('worker', r['worker_error'])]
     if r.get('raised'):
-        return ('raises:' + r.get('stage', '?'), '%s raised %s at %s' % (r.get('stage'), r['raised'], r.get('where')))
+        return [('raises:' + r.get('stage', '?'), '%s raised %s at %s' % (r.get('stage'), r['raised'], r.get('where')))]
     doc = r.get('docstring')
+    if r.get('flatten_error'):
+        # (lone surrogates in a docstring are escaped at extraction time since /repo e099606: flatten never sees them)
+        out.append(('flatten', 'the result cannot be flattened: %s' % r['flatten_error']))
     if r.get('src_qn') and r['src_qn'] != r.get('qn') and r.get('qn') in r.get('parse_errors', []):
-        return ('context', 'the object only inherits its docstring but was added to parse_errors (owner: %s)' % r['src_qn'])
+        out.append(('context', 'the object only inherits its docstring but was added to parse_errors (owner: %s)' % r['src_qn']))
     if r.get('fallback_ctx') and r.get('src_qn') and any(x != r['src_qn'] for x in r['fallback_ctx']):
-        return ('context', 'format_docstring_fallback was given %s as context, the docstring belongs to %s'
-                % (r['fallback_ctx'], r['src_qn']))
+        out.append(('context', 'format_docstring_fallback was given %s as context, the docstring belongs to %s'
+                    % (r['fallback_ctx'], r['src_qn'])))
     if r.get('to_node_failed') and doc:
         # an internal failure of the renderer happened while this object was rendered
         if not r['in_parse_errors'] or r['reports_obj'] < 1:
-            return ('internal_unreported', 'renderer failure (%s) but nothing is reported against the object; body shown: %r'
-                    % (r['to_node_failed'], r.get('body_html', '')[:120]))
-        if r['body_kind'] != 'pre' or r.get('pre_text') != doc:
-            return ('internal_textlost', 'renderer failure (%s) but the body is not the whole docstring as plain text: %r'
-                    % (r['to_node_failed'], r.get('body_html', '')[:120]))
-    if r.get('flatten_error'):
-        # (lone surrogates in a docstring are escaped at extraction time since /repo e099606: flatten never sees them)
-        return ('flatten', 'the result cannot be flattened: %s' % r['flatten_error'])
+            out.append(('internal_unreported', 'renderer failure (%s) but nothing is reported against the object; body shown: %r'
+                        % (r['to_node_failed'], r.get('body_html', '')[:120])))
+        elif r['body_kind'] != 'pre' or r.get('pre_text') != doc:
+            out.append(('internal_textlost', 'renderer failure (%s) but the body is not the whole docstring as plain text: %r'
+                        % (r['to_node_failed'], r.get('body_html', '')[:120])))
     gave_up = r.get('parser_raised')
     if gave_up:
         if not r['in_parse_errors'] or r['reports_obj'] < 1:
-            return ('unreported', 'the parser gave up (%s) but the object is not reported' % gave_up)
+            out.append(('unreported', 'the parser gave up (%s) but the object is not reported' % gave_up))
         if doc and (r['body_kind'] != 'pre' or r.get('pre_text') != doc):
-            return ('fallback', 'the parser gave up (%s) but the body is not the whole docstring as plain text: %r'
-                    % (gave_up, r.get('body_html', '')[:160]))
+            out.append(('fallback', 'the parser gave up (%s) but the body is not the whole docstring as plain text: %r'
+                        % (gave_up, r.get('body_html', '')[:160])))
+    if case['fmt'] == 'epytext' and r.get('fatal_left') and not gave_up:
+        out.append(('fatal_not_raised', 'the epytext parser recorded %d FATAL error(s) and still returned a parsed docstring: '
+                    'the docstring is rendered as markup, not as plain text' % r['fatal_left']))
     if r.get('fallback_called') and doc:
         if r['body_kind'] != 'pre' or r.get('pre_text') != doc:
-            return ('fallback', 'the renderer failed but the body is not the whole docstring as plain text')
+            out.append(('fallback', 'the renderer failed but the body is not the whole docstring as plain text'))
         if not r['in_parse_errors']:
-            return ('unreported', 'the renderer failed but the object is not in parse_errors')
+            out.append(('unreported', 'the renderer failed but the object is not in parse_errors'))
     if r.get('body_kind') == 'broken' and doc:
-        return ('textlost', 'body is "Broken description" for a documented object')
+        out.append(('textlost', 'body is "Broken description" for a documented object'))
     if r.get('broken_fields'):
-        return ('fieldlost', '%d field(s) rendered as "Broken description": their text is not shown' % r['broken_fields'])
+        out.append(('fieldlost', '%d field(s) rendered as "Broken description": their text is not shown (to_stan of %d field '
+                    'bodies raised: %s; object reported: %s)' % (r['broken_fields'], r.get('field_to_stan_failed', 0),
+                                                                 r.get('field_to_stan_errors'), bool(r['in_parse_errors'] and r['reports_obj']))))
+    if r.get('field_to_stan_failed') and (not r['in_parse_errors'] or r['reports_obj'] < 1):
+        out.append(('unreported', 'the renderer of a field failed but nothing is reported against the object'))
     if r.get('recovered_errs') and not r['in_parse_errors']:
-        return ('unreported', 'the parser recorded %d error(s) but the object is not in parse_errors' % r['recovered_errs'])
+        out.append(('unreported', 'the parser recorded %d error(s) but the object is not in parse_errors' % r['recovered_errs']))
     if r['in_parse_errors'] and r['reports_obj'] < 1:
-        return ('unreported', 'object in parse_errors but no report names it')
+        out.append(('unreported', 'object in parse_errors but no report names it'))
     if r.get('second_call_reports'):
-        return ('once', 'errors reported again on the second format_docstring call')
+        out.append(('once', 'errors reported again on the second format_docstring call'))
     if r['body_kind'] == 'pre' and doc and r.get('pre_text') != doc:
-        return ('fallback', 'plain text body differs from the docstring')
+        out.append(('fallback', 'plain text body differs from the docstring'))
     if r['other'] != r['other_ref']:
-        return ('isolation', 'output of the unrelated object changed: %r vs %r' % (r['other'], r['other_ref']))
+        out.append(('isolation', 'output of the unrelated object changed: %r vs %r' % (r['other'], r['other_ref'])))
     if [n for n in r['parse_errors'] if n not in (r.get('qn'), r.get('src_qn'))]:
-        return ('isolation', 'another object was added to parse_errors: %s' % r['parse_errors'])
-    return None
+        out.append(('isolation', 'another object was added to parse_errors: %s' % r['parse_errors']))
+    seen = set()
+    return [x for x in out if not (x in seen or seen.add(x))]
+
+
+def oracle_real(case: dict, r: Any) -> Optional[Tuple[str, str]]:
+    """First violation that is not the known 'fieldlost' class, else that one, else None (used by replay)."""
+    vs = oracle_real_all(case, r)
+    for v in vs:
+        if v[0] != 'fieldlost':
+            return v
+    return vs[0] if vs else None
 
 
 # ------------------------------------------------------------------------------------------------ generators
@@ -597,6 +638,14 @@ class Gen:
 
 
 CORPUS_REAL = [
+    # a field body the HTML renderer rejects (non-XML character / form feed): known finding C08-field-renderer-failure-loses-text
+    'Body text.\n\n@note: a form\x0cfeed in a field', 'Body text.\n\n:note: a \uffff in a field', '@see: state \ufffe is.',
+    # the same characters in the BODY: whole text as plain text, reported
+    'Body \uffff text.\n\n@note: fine', 'form\x0cfeed in the body',
+    # a fatal error found by the epytext TOKENIZER (doctest block whose continuation is dedented)
+    'Return the L{answer}, see C{g}.\n\n    >>> f()\n  42', '    >>> f()\n  42\n\n@return: r',
+    # an exception inside docutils (include path with a NUL character): internal parser failure
+    'Some text.\n\n.. include:: notes\x00.rst', 'Args:\n    x: d\n\n.. include:: notes\x00.rst',
     'Summary\n\n  @param x: foo\n@return: bar', 'S\n @v: a\n@d: b', 'Summary.\n\n    @param a: indented\n@return: r\n@rtype: int',
     'L{unclosed', 'hello }', '@param x: y\n\ntext after field', 'Heading\n====\nshort underline', '`unclosed',
     'Title\n==\n\ntext', ':param x: y\n  bad\n indent', 'Args:\n    x (List[int): d', 'Parameters\n----------\nx : {1, 2',
@@ -857,6 +906,7 @@ class Check(PropertyCheck):
             self._known = lib.load_known_findings(self.id)[0]
             self._kept: Dict[Tuple[str, bool], int] = {}
         isknown = self.classify_known(v, self._known) is not None
+        cls = '%s/%s' % (cls, (v.case or {}).get('k') if isinstance(v.case, dict) else '')
         n = self._kept.get((cls, isknown), 0)
         cap = int(os.environ.get('C08_MAXV', '2' if isknown else '4'))
         if n < cap:
@@ -884,6 +934,10 @@ class Check(PropertyCheck):
             if o:
                 self.count('oracle_inject_' + o[0])
                 self.keep(out, Violation('oracle', '[%s] %s' % o, case=c, observed=ci), o[0])
+            fl = fieldlost_inject(c, ci)
+            if fl:
+                self.count('oracle_inject_fieldlost')
+                self.keep(out, Violation('oracle', '[fieldlost] %s' % fl, case=c, observed=ci), 'fieldlost')
         self.evaluations += len(cases)
 
     def run_real(self, cases: List[dict], out: List[Violation]) -> None:
@@ -919,12 +973,12 @@ class Check(PropertyCheck):
                 self.count('real_recovered_errors')
             if r.get('body_kind'):
                 self.count('real_body_%s' % r['body_kind'])
-            o = oracle_real(c, r)
-            if o:
+            for o in oracle_real_all(c, r):
                 self.count('oracle_real_' + o[0].split(':')[0])
                 self.keep(out, Violation('oracle', '[%s] %s' % o, case=c, observed={k: r.get(k) for k in
                           ('raised', 'where', 'stage', 'body_kind', 'in_parse_errors', 'reports_obj', 'to_node_failed',
-                           'parser_raised', 'hang', 'body_html', 'other', 'other_ref', 'parse_errors', 'qn', 'src_qn', 'fallback_ctx')}), o[0])
+                           'parser_raised', 'hang', 'body_html', 'other', 'other_ref', 'parse_errors', 'qn', 'src_qn',
+                           'fallback_ctx', 'broken_fields', 'field_to_stan_failed', 'field_to_stan_errors', 'fatal_left')}), o[0])
         self.evaluations += len(cases)
         self.stats['real_max_wall_s'] = max([r.get('wall_s', 0) for r in impl] or [0])
 
@@ -1032,12 +1086,16 @@ class Check(PropertyCheck):
             if m['stream'] == 'inject':
                 if m.get('oracle_class') == 'isolation_split' and c.get('kind') == 'split':
                     return k
+                if m.get('oracle_class') == 'fieldlost' and failing_field_renderers(c) > 0 and isinstance(obs, dict) \
+                        and all(o_['fields'].count(['broken']) <= failing_field_renderers(c) for o_ in obs.get('ops', [])
+                                if 'fields' in o_):
+                    return k
             elif m['stream'] == 'epynode':
                 return k
-            elif m['stream'] == 'real':
-                # pinned to the exact internal failure: epytext's converter meeting a field list that was left in the tree
-                sig = m['failure']
-                if c.get('fmt') == 'epytext' and (sig in (obs.get('to_node_failed') or '') or sig in (obs.get('raised') or '')):
+            elif m['stream'] == 'real' and m.get('oracle_class') == 'fieldlost':
+                # exactly: every BROKEN field is explained by the to_stan of a field body having raised, and it was reported
+                if obs.get('broken_fields') and obs.get('broken_fields') <= (obs.get('field_to_stan_failed') or 0) \
+                        and obs.get('in_parse_errors') and obs.get('reports_obj') and obs.get('body_kind') != 'broken':
                     return k
         return None
 
